@@ -16,8 +16,8 @@ type Decision struct {
 	Forced bool     // branch: only this side was feasible (nothing asserted on replay)
 	Free   bool     // value: harness-level choice, no term equality to assert
 	V      uint64   // value chosen
-	Excl   []uint64 // pending value decision: values already explored
-	Pend   bool
+	Pend   bool     // pending value decision: pick a value within [Lo, Hi] (unsigned)
+	Lo, Hi uint64
 }
 
 type abortKind int
@@ -347,7 +347,7 @@ func (in *Exec) concretize(t *Term, why string) uint64 {
 		panic(specAbort{})
 	}
 	tb := in.tb
-	var excl []uint64
+	lo, hi := uint64(0), mask(t.W)
 	if in.replaying() {
 		d := in.prefix[in.pos]
 		if d.Kind != 1 || d.Free {
@@ -361,32 +361,58 @@ func (in *Exec) concretize(t *Term, why string) uint64 {
 			}
 			return d.V
 		}
-		excl = d.Excl
+		lo, hi = d.Lo, d.Hi
 		in.prefix = in.prefix[:in.pos]
 	}
-	for _, e := range excl {
-		in.addPC(tb.Not(tb.Eq(t, tb.Const(t.W, e))))
+	// restrict to the pending range (these bounds are implied by the equality asserted afterwards)
+	var rng *Term = tb.True
+	if lo > 0 {
+		rng = tb.And(rng, tb.Ule(tb.Const(t.W, lo), t))
 	}
-	in.ensureModel()
+	if hi < mask(t.W) {
+		rng = tb.And(rng, tb.Ule(t, tb.Const(t.W, hi)))
+	}
+	if !rng.IsTrue() {
+		if !(in.modelOK && in.evalModel(rng) == 1) {
+			switch in.query(rng, true) {
+			case Unknown:
+				in.inconclusive("solver unknown on concretisation: " + in.W.S.LastErr)
+			case Unsat:
+				panic(pathAbort{abInfeasible, "no further value"})
+			}
+		}
+	} else {
+		in.ensureModel()
+	}
 	v := in.evalModel(t)
-	if len(excl) > in.W.X.Cfg.MaxConcretize {
-		in.inconclusive(fmt.Sprintf("more than %d values for concretised term (%s)", in.W.X.Cfg.MaxConcretize, why))
+	in.W.concCount++
+	if in.W.concCount > in.W.X.Cfg.MaxConcretize*1000 {
+		in.inconclusive("too many concretisations (" + why + ")")
 	}
 	eq := tb.Eq(t, tb.Const(t.W, v))
-	switch in.query(tb.Not(eq), false) {
+	// is v the only value in range?
+	others := tb.And(rng, tb.Not(eq))
+	switch in.query(others, false) {
 	case Unknown:
 		in.inconclusive("solver unknown on concretisation: " + in.W.S.LastErr)
 	case Unsat:
-		in.record(Decision{Kind: 1, V: v, Forced: true})
+		if rng.IsTrue() {
+			in.record(Decision{Kind: 1, V: v, Forced: true})
+			return v
+		}
+		in.record(Decision{Kind: 1, V: v})
+		in.addPC(eq)
 		return v
 	}
-	alt := make([]Decision, len(in.taken), len(in.taken)+1)
-	copy(alt, in.taken)
-	ne := make([]uint64, len(excl), len(excl)+1)
-	copy(ne, excl)
-	ne = append(ne, v)
-	alt = append(alt, Decision{Kind: 1, Pend: true, Excl: ne})
-	in.W.X.pushWork(alt)
+	for _, r := range [][2]uint64{{lo, v - 1}, {v + 1, hi}} {
+		if (r[0] == lo && v == lo) || (r[1] == hi && v == hi) {
+			continue
+		}
+		alt := make([]Decision, len(in.taken), len(in.taken)+1)
+		copy(alt, in.taken)
+		alt = append(alt, Decision{Kind: 1, Pend: true, Lo: r[0], Hi: r[1]})
+		in.W.X.pushWork(alt)
+	}
 	in.record(Decision{Kind: 1, V: v})
 	in.addPC(eq)
 	return v
